@@ -231,7 +231,48 @@ func c12printers(c *an.Ctx) {
 	decode := map[string]string{} // escape char -> decoded char
 	special := map[string]bool{}  // characters that end/break/escape inside a quoted string
 	if ss != nil {
+		// record one (variable == literal) test and what its branch writes
+		record := func(name, v string, body ast.Node) {
+			switch name {
+			case "ch0":
+				special[v] = true
+			case "ch1":
+				// the branch writes the decoded rune: a literal, or the escaped character itself
+				ast.Inspect(body, func(k ast.Node) bool {
+					if ce, ok := k.(*ast.CallExpr); ok {
+						if sel, ok := ce.Fun.(*ast.SelectorExpr); ok && sel.Sel.Name == "WriteRune" && len(ce.Args) == 1 {
+							w, ok := litValue(ss.Info, ce.Args[0])
+							if id, isID := ast.Unparen(ce.Args[0]).(*ast.Ident); !ok && isID && id.Name == "ch1" {
+								w, ok = v, true
+							}
+							if ok {
+								if _, dup := decode[v]; !dup {
+									decode[v] = w
+								}
+							}
+						}
+					}
+					return true
+				})
+			}
+		}
 		ast.Inspect(ss.Body, func(m ast.Node) bool {
+			if sw, ok := m.(*ast.SwitchStmt); ok && sw.Tag != nil {
+				if id, ok := ast.Unparen(sw.Tag).(*ast.Ident); ok {
+					for _, st := range sw.Body.List {
+						cc, ok := st.(*ast.CaseClause)
+						if !ok {
+							continue
+						}
+						for _, e := range cc.List {
+							if v, ok := litValue(ss.Info, e); ok {
+								record(id.Name, v, &ast.BlockStmt{List: cc.Body})
+							}
+						}
+					}
+				}
+				return true
+			}
 			is, ok := m.(*ast.IfStmt)
 			if !ok {
 				return true
@@ -258,24 +299,7 @@ func c12printers(c *an.Ctx) {
 				if !ok {
 					return
 				}
-				switch id.Name {
-				case "ch0":
-					special[v] = true
-				case "ch1":
-					// the branch writes the decoded rune
-					ast.Inspect(is.Body, func(k ast.Node) bool {
-						if ce, ok := k.(*ast.CallExpr); ok {
-							if sel, ok := ce.Fun.(*ast.SelectorExpr); ok && sel.Sel.Name == "WriteRune" && len(ce.Args) == 1 {
-								if w, ok := litValue(ss.Info, ce.Args[0]); ok {
-									if _, dup := decode[v]; !dup {
-										decode[v] = w
-									}
-								}
-							}
-						}
-						return true
-					})
-				}
+				record(id.Name, v, is.Body)
 			}
 			walk(is.Cond)
 			return true
